@@ -62,3 +62,7 @@ claim('C20',
       "Bounded exploration of the real run_mapping with cloud_safe=True on real files: the solver chooses punctuation in directory / file names and how the run ends (success, five classes of invalid input, worker failure, failing environment step before/after); the JSON config and log, the log file and the HDF5 metadata are scanned for the sandbox root and the installation directory.",
       "names with spaces are outside (as in the property); third-party exception texts as an open set are outside; absence of a leak is established only for the messages these endings produce",
       "DESIGN.md §4 C20")
+claim('C11',
+      "Bounded symbolic model checking of the real marker criteria kernels with everything symbolic: Holm correction (equal to the textbook step-down formula, and the restricted variant decides 'below threshold' identically) for 1-3 (4) p-values; exact and approximate penetrance tests (soundness w.r.t. the floors, completeness w.r.t. the strict thresholds, exactness) with all six thresholds, penetrances, fold changes and n_valid symbolic; the Welch statistic / Welch-Satterthwaite identity (NRA); the p-value-mask validity rule; score_differential_genes with arbitrary corrected p-values (cluster-size rule, validity = p AND penetrance, direction, pair swap).",
+      "the numerical value of the Student-t / normal CDF (scipy) and the boring_t / big_nu short-cuts are outside; float16 storage of the mask is modelled as 'exactly -1 or >= resolution'; assembly of the pair-major / gene-major tables is not in the quick tier",
+      "DESIGN.md §4 C11")
